@@ -309,6 +309,8 @@ type tcase struct {
 	// Buf, when set, is the capacity of the mock transport's request channel (default 512:
 	// Send never blocks). Small capacities are used by scripts that fill the channel exactly.
 	Buf *int `json:"buf"`
+	// Rbuf, when set, is the capacity of the mock transport's response channel (default 512).
+	Rbuf *int `json:"rbuf"`
 }
 
 type obs struct {
@@ -331,6 +333,7 @@ type result struct {
 	H     []obs   `json:"h"`
 	HMsg  string  `json:"hmsg"` // message of the error the handler returned
 	Hang  bool    `json:"hang"`
+	HRet  bool    `json:"hret"` // the handler function reached its return
 	Open  string  `json:"open,omitempty"`
 	Panic *string `json:"panic"`
 	Note  string  `json:"note,omitempty"`
@@ -351,6 +354,7 @@ type run struct {
 	hKind   int
 	hPath   bool
 	hErrSet bool
+	retDone bool
 	hDone   chan struct{} // handler function returned
 	hStart  chan struct{} // handler function entered
 	panicS  *string
@@ -485,6 +489,7 @@ func handler(ctx context.Context, s freighter.ServerStream[Req, Res]) (err error
 			e := mkErr(o.E, o.M, o.In)
 			r.mu.Lock()
 			r.hErr, r.hErrSet, r.hKind = e, true, o.E
+			r.retDone = true
 			if o.E == kPath {
 				r.hPath = true
 				r.hKind = o.In
@@ -668,7 +673,7 @@ func getTransport(name string) (*transport, error) {
 
 // ---------------------------------------------------------------- case execution
 
-const opTimeout = 4 * time.Second
+const opTimeout = 3 * time.Second
 
 func runCase(tc tcase) (res result) {
 	res = result{ID: tc.ID, C: []obs{}, H: []obs{}}
@@ -693,7 +698,11 @@ func runCase(tc tcase) (res result) {
 		if tc.Buf != nil && *tc.Buf >= 0 {
 			reqBuf = *tc.Buf
 		}
-		srv, cl := mock.NewStreamPair[Req, Res](reqBuf, 512)
+		resBuf := 512
+		if tc.Rbuf != nil && *tc.Rbuf >= 0 {
+			resBuf = *tc.Rbuf
+		}
+		srv, cl := mock.NewStreamPair[Req, Res](reqBuf, resBuf)
 		srv.BindHandler(handler)
 		cs, err = cl.Stream(ctx, "")
 	} else {
@@ -724,13 +733,18 @@ func runCase(tc tcase) (res result) {
 		}
 		return true
 	}
+	issuedC, issuedH := 0, 0 // ops handed to each side (handler: without its ret)
 issue:
 	for i, o := range tc.Ops {
 		pending[i] = true
 		if o.S == "h" {
 			r.goH <- i
+			if o.A != "ret" {
+				issuedH++
+			}
 		} else {
 			r.goC <- i
+			issuedC++
 		}
 		if !o.NW {
 			if !waitFor(i) {
@@ -800,7 +814,7 @@ issue:
 			res.Note = "cleanup drain timed out"
 		}
 	}
-	cancel()
+	// snapshot BEFORE cancelling the context (cancellation makes blocked mock calls return)
 	r.mu.Lock()
 	recheck(r.c, r.keptC)
 	recheck(r.h, r.keptH)
@@ -809,8 +823,19 @@ issue:
 	if r.hErr != nil {
 		res.HMsg = r.hErr.Error()
 	}
+	res.HRet = r.retDone
 	res.Panic = r.panicS
 	r.mu.Unlock()
+	if res.Hang {
+		// the call each side is stuck in (started, never returned) is recorded as "blocked"
+		if len(res.C) < issuedC {
+			res.C = append(res.C, obs{K: "blocked"})
+		}
+		if len(res.H) < issuedH {
+			res.H = append(res.H, obs{K: "blocked"})
+		}
+	}
+	cancel()
 	return res
 }
 
